@@ -11,7 +11,7 @@ EXTENDS System
 CONSTANTS N,          \* X/Y lattice 0..N
           ZMax,       \* Z lattice 0..ZMax
           Depth,      \* number of steps explored
-          UseRel, UseInch, UseG92, UseAt, UseHome, MaxRegs,
+          UseRel, UseInch, UseG92, UseAt, UseHome, UseArcs, MaxRegs,
           Profile     \* "exact": borders on lattice points (closed-boundary cases, mm only)
                       \* "frames": UM = 2, UI = 4, destinations on even and region borders on odd
                       \*           native coordinates (the margin C08 asks for under re-encoding)
@@ -49,6 +49,33 @@ MoveCmds ==
     {Cmd("G0", [l \in {"X", "Y", "Z"} |-> IF l = "X" THEN p[1] ELSE IF l = "Y" THEN p[2] ELSE p[3]],
          "", "") : p \in WX \X WY \X WZ}
 
+(***************************************************************************)
+(* Arcs.  The filter model abstracts the sampled points of an arc by the   *)
+(* classification the command carries ("in": some sampled point lies in a  *)
+(* region, here: both end points do; "out": no sampled point does).  The   *)
+(* alphabet offers arcs between ADJACENT lattice points only, in absolute  *)
+(* millimetre frames without G92 shift: for the lattice-aligned regions of *)
+(* the pool a chord between adjacent outside points stays outside, and the *)
+(* concretiser (harness/modelrun.py) turns the command into a real, nearly *)
+(* straight arc (radius 500 mm, sagitta 0.025 mm) on the commanded side.   *)
+(***************************************************************************)
+ArcTargets ==
+    {t \in (0..N) \X (0..N) :
+        (IF t[1] >= cs.gh.x THEN t[1] - cs.gh.x ELSE cs.gh.x - t[1])
+        + (IF t[2] >= cs.gh.y THEN t[2] - cs.gh.y ELSE cs.gh.y - t[2]) = 1}
+
+ArcCls(t) ==
+    IF InAny(fs.regs, cs.gh.x, cs.gh.y, 1) /\ InAny(fs.regs, t[1], t[2], 1) THEN "in"
+    ELSE IF ~InAny(fs.regs, cs.gh.x, cs.gh.y, 1) /\ ~InAny(fs.regs, t[1], t[2], 1) THEN "out"
+    ELSE "mixed"
+
+ArcCmds ==
+    IF UseArcs /\ Profile = "exact" /\ cs.gh.abs /\ cs.gh.unit = "mm"
+       /\ cs.gh.ox = 0 /\ cs.gh.oy = 0
+    THEN {Cmd(code, [l \in {"X", "Y", "I"} |-> IF l = "X" THEN t[1] ELSE IF l = "Y" THEN t[2] ELSE 1],
+              "", ArcCls(t)) : code \in {"G2", "G3"}, t \in {u \in ArcTargets : ArcCls(u) # "mixed"}}
+    ELSE {}
+
 ModeCmds ==
     (IF UseRel THEN {Plain("G90"), Plain("G91")} ELSE {}) \cup
     (IF UseInch THEN {Plain("G20"), Plain("G21")} ELSE {}) \cup
@@ -62,7 +89,7 @@ AtInputs == IF UseAt THEN { <<"disable">>, <<"enable">>, <<>> } ELSE {}
 \* all inputs offered in the current state, as one set (one disjunct: TLC's simulator then picks
 \* uniformly among inputs instead of among kinds of inputs)
 Inputs ==
-    {[k |-> "g", c |-> c] : c \in MoveCmds \cup ModeCmds} \cup
+    {[k |-> "g", c |-> c] : c \in MoveCmds \cup ModeCmds \cup ArcCmds} \cup
     {[k |-> "at", a |-> a, s |-> FALSE] : a \in AtInputs} \cup
     (IF UseAt THEN {[k |-> "at", a |-> <<"disable">>, s |-> TRUE]} ELSE {}) \cup
     {[k |-> "addr", r |-> r] : r \in {r \in RegionPool :
